@@ -85,7 +85,7 @@ def monitor(case, impl):
     retained byte (moves only when the implementation compacts). Checks the property text
     on the implementation's observations op by op."""
     kind, ops = parse_case(case)
-    if impl.startswith("PANIC"):
+    if impl.startswith("PANIC "):
         return ("panic", "harness-level panic: " + impl[:200])
     lines = split_trace(impl)
     W = b""
@@ -246,9 +246,117 @@ def gen_stream_random(rng, count):
     return out
 
 
+B_ALPHA = ["w0", "w1", "w3", "w40", "r0", "r1", "r3", "n1", "n3", "n50", "s0:0", "s0:2", "s1:-1", "s1:1", "s2:0", "s2:-2",
+           "s0:5", "s3:0", "t", "z", "g0", "g1", "g70"]
+
+
+class BufSim:
+    """capacity logic of iox.Buffer, used ONLY to steer the random generator towards the
+    branch thresholds of grow (no role in any verdict)."""
+
+    def __init__(self):
+        self.l = self.off = self.cap = 0
+        self.nil = True
+
+    def grow(self, n):
+        m = self.l - self.off
+        if m == 0 and self.off != 0:
+            self.l = self.off = 0
+        if n <= self.cap - self.l:
+            self.l += n
+            return
+        if self.nil and n <= 64:
+            self.nil, self.cap, self.l = False, 64, n
+            return
+        if n <= self.cap // 2 - m:
+            pass
+        else:
+            self.cap = 2 * self.cap + n
+            self.nil = False
+        self.off, self.l = 0, m + n
+
+    def sizes(self, rng):
+        m = self.l - self.off
+        c = self.cap
+        cand = [0, 1, 2, 3, 31, 32, 33, 63, 64, 65, c - self.l, c - self.l + 1, max(0, c - self.l - 1),
+                c // 2 - m, c // 2 - m + 1, max(0, c // 2 - m - 1), c // 2, c, c + 1, 2 * c + 1, rng.range(0, 130), rng.range(0, 2 * c + 2)]
+        lim = 64 if c > 1500 else 700
+        return [x for x in cand if 0 <= x <= lim]
+
+
+def gen_buffer_random(rng, count):
+    out = []
+    for _ in range(count):
+        n = rng.range(5, 60)
+        sim = BufSim()
+        toks = []
+        for _ in range(n):
+            r = rng.below(100)
+            un = sim.l - sim.off
+            if r < 28:
+                k = rng.choice(sim.sizes(rng))
+                toks.append("w%d" % k)
+                if not (k <= sim.cap - sim.l):
+                    sim.grow(k)
+                else:
+                    sim.l += k
+            elif r < 50:
+                k = rng.choice([0, 1, 2, 3, un, un + 1, max(0, un - 1), un // 2, rng.range(0, 80)])
+                toks.append(rng.choice(["r%d", "r%d", "n%d"]) % k)
+                sim.off += min(k, un)
+            elif r < 72:
+                toks.append(seek_tok(rng, sim.l, sim.off))
+                # rough: a successful absolute/relative seek is not tracked exactly; keep sim.off when unsure
+                w, o = toks[-1][1:].split(":")
+                w, o = int(w), int(o)
+                tgt = {0: o, 1: sim.off + o, 2: sim.l + o}.get(w)
+                if tgt is not None and 0 <= tgt <= sim.l:
+                    sim.off = tgt
+            elif r < 82:
+                toks.append("t")
+                if sim.off > 0:
+                    sim.l -= sim.off
+                    sim.off = 0
+            elif r < 88:
+                toks.append("z")
+                sim.l = sim.off = 0
+            else:
+                k = rng.choice(sim.sizes(rng))
+                toks.append("g%d" % k)
+                l0 = sim.l
+                sim.grow(k)
+                sim.l = sim.l - k
+        out.append("c13B " + " ".join(toks))
+    return out
+
+
+def gen_malformed(rng, count):
+    """negative Next/Grow sizes (outside the property's quantifier): model and code must
+    still agree (both panic at the same op)"""
+    out = []
+    for _ in range(count):
+        toks = [rng.choice(B_ALPHA) for _ in range(rng.range(0, 5))]
+        toks.append(rng.choice(["n-1", "g-1", "n-70", "g-9223372036854775808", "n-9223372036854775808"]))
+        toks += [rng.choice(B_ALPHA) for _ in range(rng.range(0, 2))]
+        out.append("c13B " + " ".join(toks))
+    return out
+
+
 def gen(rng, tier):
     streams = []
     quick = tier == "quick"
+    # ---- Buffer, bounded-exhaustive
+    ex = []
+    for n in range(1, 4):
+        ex += ["c13B " + " ".join(p) for p in product(B_ALPHA, n)]
+    if quick:
+        for _ in range(4000):
+            ex.append("c13B " + " ".join(rng.choice(B_ALPHA) for _ in range(4)))
+    else:
+        ex += ["c13B " + " ".join(p) for p in product(B_ALPHA, 4)]
+    streams.append(("buffer-exhaustive-short", sorted(set(ex))))
+    streams.append(("buffer-random-long", gen_buffer_random(rng, 600 if quick else 6000)))
+    streams.append(("buffer-negative-sizes", gen_malformed(rng, 100 if quick else 1000)))
     # ---- OctetsStream, bounded-exhaustive
     ex = []
     for n in range(1, 4):
@@ -275,6 +383,15 @@ def flat_of_output(kind, out):
         ret = o["ret"]
         if ret == "W":
             fl += [1]
+        elif ret.startswith("W"):
+            fl += [1, int(ret[1:])]
+        elif ret.startswith("N"):
+            d = bytes.fromhex(ret[1:])
+            fl += [5, len(d)] + list(d)
+        elif kind == "B" and ret == "SE":
+            fl += [3, 0]
+        elif kind == "B" and ret.startswith("S"):
+            fl += [3, 1, int(ret[1:])]
         elif ret.startswith("R"):
             f = ret[1:].split(":")
             d = bytes.fromhex(f[1])
@@ -292,7 +409,10 @@ def flat_of_output(kind, out):
         else:
             d = bytes.fromhex(o["b"])
             fl += [len(d)] + list(d)
-        fl += [int(o["l"]), int(o["p"])]
+        if kind == "S":
+            fl += [int(o["l"]), int(o["p"])]
+        else:
+            fl += [int(o["l"]), int(o["c"])] + ([0] if o["p"] == "E" else [1, int(o["p"])])
     return fl
 
 
@@ -302,7 +422,11 @@ def coq_ops(kind, case):
         return "[" + ";".join("%d" % x for x in b) + "]"
     r = []
     for op in ops:
-        if op[0] == "w":
+        if kind == "B":
+            r.append({"w": lambda: "BWrite %s" % zl(op[1]), "r": lambda: "BRead %d%%nat" % op[1],
+                      "n": lambda: "BNext (%d)" % op[1], "g": lambda: "BGrow (%d)" % op[1],
+                      "s": lambda: "BSeek (%d) (%d)" % (op[2], op[1]), "t": lambda: "BTidy", "z": lambda: "BReset"}[op[0]]())
+        elif op[0] == "w":
             r.append("SWrite %s" % zl(op[1]))
         elif op[0] == "r":
             r.append("SRead %d%%nat" % op[1])
@@ -318,12 +442,13 @@ def coq_ops(kind, case):
 def coq_crosscheck(chk, cases, model_out):
     items = []
     for c, m in zip(cases, model_out):
-        kind = "S"
+        kind = "S" if c.startswith("c13S ") else "B"
         fl = flat_of_output(kind, m)
-        items.append("(stm_flat StmFixed %s, [%s])" % (coq_ops(kind, c), ";".join("(%d)" % x for x in fl)))
+        fn = "stm_flat StmFixed" if kind == "S" else "buf_flat"
+        items.append("(%s %s, [%s])" % (fn, coq_ops(kind, c), ";".join("(%d)" % x for x in fl)))
     if not items:
         return 0
-    body = """From Got Require Import Base GoSlice StreamOps.
+    body = """From Got Require Import Base GoSlice StreamOps Buffer.
 Local Open Scope Z_scope.
 Definition zl_eqb (a b : list Z) : bool := if list_eq_dec Z.eq_dec a b then true else false.
 Definition cases : list (list Z * list Z) := [%s].
@@ -368,9 +493,17 @@ def run(chk):
         pure.run_streams(chk, binary, streams, compare, monitor, nontrivial)
         try:
             canary(chk, binary)
-            sample = [c for c in streams[1][1] if c.startswith("c13S ")][::max(1, len(streams[1][1]) // 120)][:120]
+            sample = []
+            for name, cs in streams:
+                sample += cs[::max(1, len(cs) // 60)][:60]
             mo = common.run_model(sample)
-            chk.cov["vm_compute_crosschecked"] = coq_crosscheck(chk, sample, mo)
+            # coqc parses long literal lists slowly: keep every short trace, few long ones
+            budget, keep = 60000, []
+            for c, m in zip(sample, mo):
+                if len(m) <= 1500 or (len(m) <= 12000 and budget >= len(m)):
+                    keep.append((c, m))
+                    budget -= len(m) if len(m) > 1500 else 0
+            chk.cov["vm_compute_crosschecked"] = coq_crosscheck(chk, [c for c, _ in keep], [m for _, m in keep])
         except Exception as ex:
             chk.infra_errors.append("canary / vm_compute cross-check failed: %r" % (ex,))
     chk.finish(search=search)
